@@ -293,6 +293,8 @@ fn gen_pph(rng: &mut Rng) -> Vec<u8> {
     // (loopback ::1, IPv4-compatible), which must still be reported as IPv6 when the V flag is set
     if (fl & 0x80 == 0 && rng.chance(3, 4)) || (fl & 0x80 != 0 && rng.chance(1, 4)) { v.extend([0u8; 12]); v.extend(rng.bytes(4)); }
     else if rng.chance(1, 8) { let mut a = rng.bytes(16); for b in a.iter_mut().take(rng.usize(1, 15)) { *b = 0; } v.extend(a); }
+    // IPv4-mapped ::ffff:a.b.c.d: sixteen octets of an IPv6 peer, never to be folded into the IPv4 address
+    else if rng.chance(1, 8) { v.extend([0u8; 10]); v.extend([0xffu8, 0xff]); v.extend(rng.bytes(4)); }
     else { v.extend(rng.bytes(16)); }
     v.extend((rng.edgy(u32::MAX as u64) as u32).to_be_bytes());
     v.extend(rng.bytes(4));
